@@ -18,19 +18,33 @@ V3 == {<<s, o, l>> : s \in {<<>>, <<"a">>, <<"e2", "dq", "bs">>}, o \in Opts, l 
 V4 == {<<i, v>> : i \in {0, 7}, v \in {<<0, <<>>>>, <<0, <<"a">>>>, <<7, <<"a">>>>}}
 V5 == {<<f, o>> : f \in Floats, o \in {<<>>, <<3>>}}
 V6 == {<<i, d>> : i \in {0, 7}, d \in Dicts}
-Decls == << [name |-> "D1", d |-> D1, vals |-> V1, cmp |-> TRUE], [name |-> "D2", d |-> D2, vals |-> V2, cmp |-> TRUE],
-            [name |-> "D3", d |-> D3, vals |-> V3, cmp |-> TRUE], [name |-> "D4", d |-> D4, vals |-> V4, cmp |-> TRUE],
-            [name |-> "D5", d |-> D5, vals |-> V5, cmp |-> FALSE], [name |-> "D6", d |-> D6, vals |-> V6, cmp |-> FALSE] >>
+\* dflt: the fields declared with a default value (<<index, default>>); kind: model / class. Defaults and the kind of the
+\* declaration are matters of construction only: every law below is stated on the declaration order of ALL fields, so a
+\* declaration with a defaulted field BEFORE a required one (D7, D8) must order, compare, hash and serialise exactly like
+\* the same declaration without defaults (D2, D1).
+Decls == << [name |-> "D1", d |-> D1, vals |-> V1, cmp |-> TRUE, dflt |-> <<>>, kind |-> "model"],
+            [name |-> "D2", d |-> D2, vals |-> V2, cmp |-> TRUE, dflt |-> <<>>, kind |-> "model"],
+            [name |-> "D3", d |-> D3, vals |-> V3, cmp |-> TRUE, dflt |-> <<>>, kind |-> "model"],
+            [name |-> "D4", d |-> D4, vals |-> V4, cmp |-> TRUE, dflt |-> <<>>, kind |-> "model"],
+            [name |-> "D5", d |-> D5, vals |-> V5, cmp |-> FALSE, dflt |-> <<>>, kind |-> "model"],
+            [name |-> "D6", d |-> D6, vals |-> V6, cmp |-> FALSE, dflt |-> <<>>, kind |-> "model"],
+            [name |-> "D7", d |-> D2, vals |-> V2, cmp |-> TRUE, dflt |-> << <<1, 0>>, <<3, FALSE>> >>, kind |-> "model"],
+            [name |-> "D8", d |-> D1, vals |-> V1, cmp |-> TRUE, dflt |-> << <<1, 7>> >>, kind |-> "class"],
+            [name |-> "D9", d |-> D2, vals |-> V2, cmp |-> TRUE, dflt |-> << <<2, 7>> >>, kind |-> "class"] >>
+DefaultsIrrelevant == \A pr \in {<<7, 2>>, <<9, 2>>, <<8, 1>>} :
+                        LET A == Decls[pr[1]]  B == Decls[pr[2]] IN
+                        A.d = B.d /\ \A v, w \in A.vals : ValLt(A.d, v, w) = ValLt(B.d, v, w) /\ ValEq(A.d, v, w) = ValEq(B.d, v, w)
 Laws == \A k \in 1..Len(Decls) :
           LET D == Decls[k] IN
           /\ RoundTrip(D.d, D.vals) /\ FieldNamesExact(D.d, D.vals)
           /\ (D.cmp => (EqStructural(D.d, D.vals) /\ LtStrictTotal(D.d, D.vals) /\ HashConsistent(D.d, D.vals)))
 ASSUME Laws
+ASSUME DefaultsIrrelevant
 \* B1 tables: per declaration the values (in a fixed order) with their JSON trees, and the eq / lt matrices
 Emit == phase = "start" =>
    \A k \in 1..Len(Decls) :
      LET D == Decls[k]  vs == SetToSeq(D.vals) IN
-     PrintT(<<"CASE", ToJson([name |-> D.name, d |-> D.d, cmp |-> D.cmp, vals |-> vs,
+     PrintT(<<"CASE", ToJson([name |-> D.name, d |-> D.d, cmp |-> D.cmp, vals |-> vs, dflt |-> D.dflt, kind |-> D.kind,
               json |-> [i \in 1..Len(vs) |-> ToJsonTree(D.d, vs[i])],
               eq |-> [i \in 1..Len(vs) |-> [j \in 1..Len(vs) |-> IF D.cmp THEN ValEq(D.d, vs[i], vs[j]) ELSE FALSE]],
               lt |-> [i \in 1..Len(vs) |-> [j \in 1..Len(vs) |-> IF D.cmp THEN ValLt(D.d, vs[i], vs[j]) ELSE FALSE]]])>>)
